@@ -1,6 +1,8 @@
 package main
 
 import (
+	"crypto/ecdsa"
+	"crypto/elliptic"
 	"crypto/rand"
 	"crypto/x509"
 	"crypto/x509/pkix"
@@ -35,6 +37,26 @@ func cert() []byte {
 	return testCert
 }
 
+var testECCert []byte
+
+// ecCert: a valid X.509 certificate whose key is not RSA.
+func ecCert() []byte {
+	if testECCert == nil {
+		k, err := ecdsa.GenerateKey(elliptic.P256(), rand.Reader)
+		if err != nil {
+			panic(err)
+		}
+		tpl := &x509.Certificate{SerialNumber: big.NewInt(2), Subject: pkix.Name{CommonName: "verif-ec"},
+			NotBefore: time.Now().Add(-time.Hour), NotAfter: time.Now().Add(time.Hour), KeyUsage: x509.KeyUsageDigitalSignature}
+		d, err := x509.CreateCertificate(rand.Reader, tpl, tpl, &k.PublicKey, k)
+		if err != nil {
+			panic(err)
+		}
+		testECCert = d
+	}
+	return testECCert
+}
+
 type c13frame struct {
 	B    string `json:"b"`
 	K    string `json:"k"` // chunk | err | panic | uacp
@@ -59,6 +81,7 @@ type c13case struct {
 	Cap     int         `json:"cap"`
 	Frames  []c13frame  `json:"frames"`
 	Cert    string      `json:"cert,omitempty"`
+	ECCert  string      `json:"eccert,omitempty"`
 }
 
 func errClass(err error) (int, string) {
@@ -68,6 +91,8 @@ func errClass(err error) (int, string) {
 		return 1, ""
 	case err == ua.StatusBadSequenceNumberInvalid:
 		return 8, ""
+	case err == ua.StatusBadCertificateInvalid:
+		return 9, ""
 	case strings.Contains(es, "decode chunk failed"), strings.Contains(es, "decode header failed"):
 		return 2, ""
 	case strings.Contains(es, "openingInstance is nil"):
@@ -133,11 +158,13 @@ func fuzzFrames(r *rng.R, c *c13case, n int) [][]byte {
 			b, _ = rawOpn(ua.SecurityPolicyURINone, nil, nil, uint32(r.U64()), uint32(r.Intn(5)), body)
 		case 3: // OPN, real policy, garbage or valid certificate
 			var ce []byte
-			switch r.Intn(3) {
+			switch r.Intn(4) {
 			case 0:
 				ce = cert()
 			case 1:
 				ce = r.Bytes(r.Intn(40))
+			case 2:
+				ce = ecCert() // parses, but the key is not RSA
 			}
 			uri := []string{ua.SecurityPolicyURIBasic256Sha256, ua.SecurityPolicyURIBasic128Rsa15, "http://x/unknown", ""}[r.Intn(4)]
 			b, _ = rawOpn(uri, ce, r.Bytes(r.Pick(0, 20)), 1, 1, body)
@@ -333,6 +360,7 @@ func c13(seed uint64, n int, replay string) {
 							c.Insts = append(c.Insts, p)
 						}
 						c.Cert = hx(cert())
+						c.ECCert = hx(ecCert())
 						runC13(r, &c, 14)
 						enc.Encode(c)
 					}
